@@ -256,7 +256,10 @@ func (r *yieldRewriter) rewriteStmt(
 		r.rewriteIfStmt(stmt, children)
 		if isLast {
 			// MAKE SURE EVERY BRANCH END WITH RETURN STMT
-			r.generateLastNormalIfNecessary(children)
+			// (a case body falls out of its switch, the enclosing block takes care)
+			if children.kind != kindSwitch {
+				r.generateLastNormalIfNecessary(children)
+			}
 			return nil // no following
 		} else {
 			return children
